@@ -29,7 +29,7 @@ const EgClass EG[] = {
     {"KXK", "QR", ""},     {"KXK", "BB", ""},      {"KXK", "RBN", ""},    {"KXK", "QQQ", ""},     {"KQKR", "Q", "R"},    {"KRNKR", "RN", "R"},
     {"KRBKR", "RB", "R"},  {"KBPsK", "BP", ""},    {"KBPsK", "BPP", ""},  {"KQKP", "Q", "P"},     {"KRKP", "R", "P"},    {"KNNK", "NN", ""},
     {"KNNKP", "NN", "P"},  {"KBPsKB", "BP", "B"},  {"KBPsKB", "BPP", "B"}, {"KBPsKB", "BPPP", "B"}, {"KRKB", "R", "B"},   {"KRKN", "R", "N"},
-    {"KQKRPs", "Q", "RP"}, {"KQKRPs", "Q", "RPP"}, {"KmmKm", "BB", "N"},  {"KmmKm", "BN", "N"},   {"KmmKm", "NN", "B"},  {"KmmKm", "BB", "B"},
+    {"KQKRPs", "Q", "RP"}, {"KQKRPs", "Q", "RPP"}, {"KQKRPs", "Q", "RPPP"}, {"KQKRPs", "Q", "RPPPP"}, {"KmmKm", "BB", "N"},  {"KmmKm", "BN", "N"},   {"KmmKm", "NN", "B"},  {"KmmKm", "BB", "B"},
     {"KmmKm", "BN", "B"},  {"general", "QQ", "Q"}, {"general", "RR", "R"}, {"general", "RP", "R"}, {"general", "QP", "Q"}, {"general", "NP", "B"},
     {"general", "RPP", "RP"}, {"general", "BPP", "NP"},
 };
@@ -553,11 +553,38 @@ int main(int argc, char** argv)
         for (long i = 0; i < games; ++i)
         {
             Board b = (i % 3 == 0) ? Board::startpos() : Board::fen(gen::CORPUS[rng.below(gen::CORPUS_N)]);
+            if (i % 3 == 2)
+            {
+                // sparse endings: captures and promotions move the game through the specialised classes
+                Board e;
+                if (gen_endgame(rng, EG[rng.below(EG_N)], int(rng.below(2)), e)) b = e;
+            }
             gen::Game g = gen::random_game(rng, b, int(plies), pol, "game");
+            // the same game and its colour mirror played on two engine positions (piece lists, counts and keys then come from
+            // do_move, not from the FEN parser): the live positions must be judged alike as well
+            Position PW(b.fen()), PM(b.mirrored().fen());
             for (size_t k = 0; k <= g.moves.size(); ++k)
             {
                 check_c13(live, b, "game", n++);
-                if (k < g.moves.size()) b = b.after(g.moves[k]);
+                {
+                    std::string fw = b.fen();
+                    vh::set_case(fw.c_str(), "c13 played game vs mirrored game");
+                    PositionScorer s1, s2;
+                    bool fresh_pair = (k % 16) == 0;
+                    Value a = fresh_pair ? s1.score(PW) : live.score(PW), m = fresh_pair ? s2.score(PM) : live.score(PM);
+                    rec.evaluations++;
+                    rec.count("played-vs-mirrored-game-positions");
+                    if (a != m && !b.insufficient_material())
+                        rec.violation("played-game-vs-mirrored-game:" + material_sig(b), vh::J().str("fen", fw).num("ply", (long long)k).num("score", a).num("mirror_score", m).str("start", g.start_fen).done());
+                }
+                if (k < g.moves.size())
+                {
+                    const orc::Move& mv = g.moves[k];
+                    Board mb = b.mirrored();
+                    PW.do_move(glue::to_engine(mv, b));
+                    PM.do_move(glue::to_engine(orc::mirror_move(mv), mb));
+                    b = b.after(mv);
+                }
             }
         }
         for (long i = 0; i < synth; ++i)
@@ -565,13 +592,19 @@ int main(int argc, char** argv)
             Board b = gen::synth(rng, int(i % gen::T_COUNT));
             check_c13(live, b, std::string("synth"), n++);
         }
+        // classes and colours interleaved at random: state that survives from one evaluation to the next (a memo in the
+        // dispatcher, say) meets every class transition, not just runs of one class
+        std::vector<std::pair<int, int>> order;
         for (int c = 0; c < EG_N; ++c)
             for (int strong = 0; strong < 2; ++strong)
-                for (long i = 0; i < eg;)
+                for (long i = 0; i < eg; ++i) order.push_back({c, strong});
+        for (size_t i = order.size(); i > 1; --i) std::swap(order[i - 1], order[rng.below(uint32_t(i))]);
+        for (size_t oi = 0; oi < order.size(); ++oi)
                 {
+                    int c = order[oi].first, strong = order[oi].second;
+                    long i = long(oi);
                     Board b;
                     if (!gen_endgame(rng, EG[c], strong, b)) continue;
-                    ++i;
                     check_c13(live, b, std::string(EG[c].name) + (strong ? ":black-strong" : ":white-strong"), n++);
                     // and a few plies of play from it (captures move it into neighbouring classes)
                     if (i % 4 == 0)
